@@ -89,9 +89,11 @@ def format_tag_value(value: Any) -> str:
     Format a tag value.
     """
     # Simple strings (no spaces or commas or special values) can be displayed without quotes.
+    # Strings starting like JSON ('[', '{', '"') must be quoted, otherwise they would be parsed as JSON.
     if (
         isinstance(value, str)
         and not re.match(".*[ ,].*", value)
+        and value[:1] not in ("[", "{", '"')
         and isinstance(parse_tag_value(value), str)
     ):
         return value
